@@ -25,7 +25,10 @@ CONFIGS = [([4, 3, 5, 4], [2, 2], NAMES5), ([4, 6, 5], [2, 2], NAMESG), ([5, 6, 
            # ... and with data ranks that own nothing in ANY layout (they must still take part in every collective)
            ([1, 4, 1], [2, 2], NAMES3),
            # a layout swapper whose groups hold two layouts each: routes of three steps across the groups
-           ([4, 6, 5], [2, 3], NAMESH), ([5, 4, 6], [3, 2], NAMESH)]
+           ([4, 6, 5], [2, 3], NAMESH), ([5, 4, 6], [3, 2], NAMESH),
+           # the driver's potential grid with extents that do not divide: the local block of the destination of a two-step change is
+           # LARGER than that of its source on some rank
+           ([5, 7, 6], [2, 1], NAMESG), ([7, 11, 4], [3, 1], NAMESG)]
 
 
 def mc_cfg(hassave, maxlen, maxver, dump, view, intact="IntactNone"):
